@@ -10,7 +10,7 @@ for m in m1 m2 m3; do
 import json,sys,re
 try:
     m=json.load(open(sys.argv[1])); c=m.get("demo_cmd","")
-    r=re.search(r"--features[ =](\S+)",c); print("--features "+r.group(1).strip('"\'') if r else "")
+    r=re.search(r"--features[ =](\S+)",c); print(("--release " if "--release" in c else "")+("--features "+r.group(1).strip('"\'') if r else ""))
 except Exception: print("")
 PY
 )
